@@ -575,7 +575,7 @@ func fixedCases() []Case {
 	out = append(out, one("conn", thr, Resp{Pat: 3, Body: 8000, Head: 100, Seed: 9, Splits: []int{3000, 777}}))
 	// three connections share the shape's global bucket of 1500 B/s: the second or third finds less
 	// room in it than in its own bucket
-	shared := Config{Shapes: []Shape{{Pat: 0, MaxBW: 1500, Halts: []Halt{{At: 10, Dur: 0, N: -1}}}}}
+	shared := Config{Shapes: []Shape{{Pat: 0, MaxBW: 1500}}} // no actions: the shape locks stay out of it
 	sc := Case{Level: "conn", Steps: []Step{{Op: "post", Cfg: &shared}, {Op: "open", Conn: 0}, {Op: "open", Conn: 1}, {Op: "open", Conn: 2}}}
 	var lanes []Lane
 	for i := 0; i < 3; i++ {
